@@ -218,6 +218,8 @@ def run_shard(shard):
         cfg = A.config(ln, ["TreeBandit", {"tree_parameters": shard["params"]}], seed=shard["seed"])
     judge = judge_clusters if kind == "clu" else judge_tree
     for n in range(2, shard["nmax"] + 1):
+        if n == 5 and (kind == "clu" and shard["setting"] != "c2" or ln not in ("eg0", "ucb")):
+            continue
         if shard.get("quick") and n == 4 and kind == "clu" and (shard["setting"] != "c2" or ln == "lucb"):
             continue                    # quick tier: 4-row tuples for KMeans(2) with the count/sum policies and for the trees
         for pts in itertools.product(P5, repeat=n):
@@ -226,12 +228,16 @@ def run_shard(shard):
             for comp in A.compositions(n):
                 if shard.get("quick") and n == 4 and len(comp) > 2:
                     continue            # quick tier: the longest tuples with at most two training calls
+                if n == 5 and len(comp) > 2:
+                    continue            # thorough tier: 5-row tuples with at most two training calls
                 for variant in ("plain", "add", "remove", "requery"):
                     if variant in ("add", "remove") and len(comp) < 2:
                         continue
                     if variant == "requery" and (len(comp) > 1 or n < 3):
                         continue
                     if shard.get("quick") and n == 4 and variant == "remove":
+                        continue
+                    if n == 5 and variant != "plain":
                         continue
                     oplist, rows, arms = build_history(pts, variant, comp, ln)
                     c = copy.deepcopy(cfg)
